@@ -412,9 +412,40 @@ fn indentation_errors(cx: &mut Ctx) {
         Some(m) => {
             let t = sm::tsx(&m.block);
             // both comparisons: compare_strict(<indentations.current()>, get_pos())? — directly or through a local
-            let direct = t.matches("indentation_level.compare_strict(self.indentations.current(),self.get_pos())?").count();
-            let via_local = t.matches("=self.indentations.current();").count().min(t.matches("indentation_level.compare_strict(current_indentation,self.get_pos())?").count());
-            if direct + via_local == 2 && t.matches(".compare_strict(").count() == 2 {
+            // every compare_strict call: receiver = the measured indentation, arguments = (indentations.current() —
+            // directly or through a local — , get_pos()), result propagated with `?`
+            let mut current_locals: BTreeSet<String> = BTreeSet::new();
+            sm::for_each_stmt_in_block(&m.block, &mut |st| {
+                if let syn::Stmt::Local(l) = st {
+                    if let (Some(init), syn::Pat::Ident(pi)) = (&l.init, &l.pat) {
+                        if sm::tsc(&init.expr) == "self.indentations.current()" {
+                            current_locals.insert(pi.ident.to_string());
+                        }
+                    }
+                }
+            });
+            let mut good = 0;
+            let mut all = 0;
+            sm::for_each_expr_in_block(&m.block, |e| {
+                if let syn::Expr::Try(tr) = e {
+                    if let syn::Expr::MethodCall(mc) = &*tr.expr {
+                        if mc.method == "compare_strict" {
+                            let a0 = mc.args.first().map(|a| sm::tsc(a)).unwrap_or_default();
+                            let a1 = mc.args.iter().nth(1).map(|a| sm::tsc(a)).unwrap_or_default();
+                            if (a0 == "self.indentations.current()" || current_locals.contains(&a0)) && a1 == "self.get_pos()" {
+                                good += 1;
+                            }
+                        }
+                    }
+                }
+                if let syn::Expr::MethodCall(mc) = e {
+                    if mc.method == "compare_strict" {
+                        all += 1;
+                    }
+                }
+            });
+            let _ = &t;
+            if good == 2 && all == 2 {
                 cx.ok(rule, "both comparisons go through compare_strict(indentations.current(), get_pos())? (errors propagate)");
             } else {
                 cx.fail(rule, &format!("{}/uses-compare_strict", rule), &lx.loc(m), "handle_indentations does not compare both times with compare_strict(indentations.current(), get_pos())?");
